@@ -563,6 +563,74 @@ fn c12_stress(shard: &mut Shard, seed: u64, index: u64, rounds: u64) {
     sched().quiet();
 }
 
+
+/// Ack protocol under an interpreter that preempts at individual memory accesses (Miri many-seeds): one
+/// completer thread, one executor-like poller, no harness hooks installed. `variant` picks the status and
+/// whether the poller changes its waker.
+fn c12_miri(shard: &mut Shard, variant: u64) {
+    let status = STATUSES[(variant % 3) as usize];
+    let change_waker = variant / 3 % 2 == 1;
+    let spinning = variant / 6 % 4 != 3; // an executor that re-polls spuriously instead of waiting for its wake (3 of 4 variants)
+    // phase sweep: the interpreter alternates threads almost deterministically, so the relative offset of the
+    // poller's flag check inside done() is swept explicitly with dummy work of variant-dependent length
+    let (delay_poller, delay_completer) = (0u64, (variant / 24) * 7 + (variant % 7));
+    let ack = Arc::new(VerifAck::new());
+    let completer_ack = ack.clone();
+    let done_returned = Arc::new(AtomicBool::new(false));
+    let flag = done_returned.clone();
+    // the completer starts its done() only once the poller is about to poll, so that the two really overlap
+    let go = Arc::new(AtomicBool::new(false));
+    let go_completer = go.clone();
+    let completer = thread::spawn(move || {
+        let _ = &go_completer;
+        for i in 0..delay_completer { std::hint::black_box(i); }
+        completer_ack.done(status);
+        flag.store(true, Ordering::SeqCst);
+    });
+    let mut waker = CountingWaker::new();
+    let mut polls = 0u64;
+    let mut ready: Option<CommandStatus> = None;
+    let witness = J::obj().with("engine", J::s("comp")).with("scenario", J::s("c12-miri")).with("variant", J::Int(variant as i128));
+    loop {
+        if change_waker && polls % 2 == 1 { waker = CountingWaker::new(); }
+        let seen = waker.count();
+        let done_before = done_returned.load(Ordering::SeqCst);
+        polls += 1;
+        let polled = rt::poll_once(ack.handle(), &waker);
+        if polls == 1 { go.store(true, Ordering::Relaxed); for i in 0..delay_poller { std::hint::black_box(i); } }
+        if std::env::var("CVH_DEBUG").is_ok() { eprintln!("variant {} poll {} -> {:?}", variant, polls, polled); }
+        match polled {
+            Poll::Ready(CommandStatus::Pending) => { fail(shard, &["C12"], "C12/ready-pending".into(), "a poll returned Ready(Pending)".into(), witness.clone()); break; }
+            Poll::Ready(s) => {
+                if s != status { fail(shard, &["C12"], "C12/ready-with-a-different-status".into(), format!("{} instead of {}", status_name(&s), status_name(&status)), witness.clone()); }
+                if let Some(prev) = ready { if prev != s { fail(shard, &["C12"], "C12/status-changed-between-polls".into(), "two polls disagreed".into(), witness.clone()); } break; }
+                ready = Some(s);
+            }
+            Poll::Pending => {
+                if ready.is_some() { fail(shard, &["C12"], "C12/pending-after-ready".into(), "Pending after Ready".into(), witness.clone()); break; }
+                if done_before { fail(shard, &["C12"], "C12/pending-after-done-returned".into(), "Pending although done() had returned before the poll".into(), witness.clone()); break; }
+                if spinning { if polls > 60 { break; } continue; }
+                // wait for the wake of this waker; if done() has returned without it, the wake-up was lost
+                let mut spins = 0u64;
+                while waker.count() == seen {
+                    if done_returned.load(Ordering::SeqCst) {
+                        if waker.count() == seen { fail(shard, &["C12"], "C12/last-pending-poller-never-woken".into(), "done() returned but the registered waker was not woken".into(), witness.clone()); }
+                        break;
+                    }
+                    spins += 1;
+                    if spins > 100_000 { break; }
+                    thread::yield_now();
+                }
+                shard.counts.inc("wake_obligations_checked");
+            }
+        }
+        if polls > 64 { break; }
+    }
+    let _ = completer.join();
+    shard.counts.add("miri_polls", polls);
+    shard.case(fnv_step(0xC12A, variant), true);
+}
+
 // ------------------------------------------------------------------------------------------------ dispatch
 
 pub fn run(args: &Args) -> Shard {
@@ -574,6 +642,11 @@ pub fn run(args: &Args) -> Shard {
     let count = args.u64("count", 10);
     let budget = Duration::from_secs(args.u64("budget-s", 3600));
     let mut shard = Shard::new(&format!("comp-{}", scenario), focus);
+    if scenario == "c12-miri" {
+        for variant in from..from + count { c12_miri(&mut shard, variant); }
+        return shard;
+    }
+    if scenario == "c14-bytes" { c14_bytes(&mut shard); return shard; }
     let _ = recorder();
     let _ = sched();
     match scenario.as_str() {
